@@ -63,6 +63,10 @@ func (s scripted) Render(_ sdf.SDF3, out sdf.Triangle3Writer) {
 		if len(s.pattern) > 0 {
 			n = s.pattern[k%len(s.pattern)]
 			k++
+			if n < 0 {
+				out.Close() // the end of one part of a composite render
+				continue
+			}
 			if n > len(s.mesh)-i {
 				n = len(s.mesh) - i
 			}
@@ -123,6 +127,10 @@ func checkBinaryList(dir string, list []tri, pattern []int, st *stats, stale int
 		os.WriteFile(pStream, junk, 0o644)
 	}
 
+	// --- a save that cannot write a single byte must not report success
+	if err := render.SaveSTL("/dev/full", mesh); err == nil {
+		return failf("SaveSTL:success-reported-for-unwritable-file", "SaveSTL(\"/dev/full\", %d triangles) returned nil: nothing can be written there", n)
+	}
 	// --- batch writer, bytes on disk
 	if err := render.SaveSTL(pSave, mesh); err != nil {
 		return failf("SaveSTL:error", "SaveSTL(%d triangles) returned %v", n, err)
@@ -468,8 +476,20 @@ func drawList(t *rapid.T, hist map[string]int) ([]tri, string) {
 }
 
 func drawPattern(t *rapid.T) ([]int, string) {
-	mode := rapid.SampledFrom([]string{"one-batch", "singles", "marching-cubes-like", "random", "256", "255-257", "with-empty-writes"}).Draw(t, "batches")
+	mode := rapid.SampledFrom([]string{"one-batch", "singles", "marching-cubes-like", "random", "256", "255-257", "with-empty-writes", "parts-that-close"}).Draw(t, "batches")
 	switch mode {
+	case "parts-that-close":
+		// a composite renderer: several parts into the one output, each part ends with Close (-1), and the
+		// caller closes once more at the end
+		p := rapid.SliceOfN(rapid.SampledFrom([]int{3, 1, 5, 40, 100, 256, 300, 7}), 1, 6).Draw(t, "pattern")
+		out := []int{}
+		for i, n := range p {
+			out = append(out, n)
+			if i%2 == 0 || rapid.Bool().Draw(t, fmt.Sprintf("close-after-%d", i)) {
+				out = append(out, -1)
+			}
+		}
+		return out, mode
 	case "one-batch":
 		return nil, mode
 	case "singles":
